@@ -21,22 +21,30 @@ Out(a, args, pre, post) ==
   IF Emit THEN PrintT(<<"T", ToJson([a |-> a, args |-> args, pre |-> Key(pre), post |-> Key(post)])>>) ELSE TRUE
 Init == st = St0 /\ nops = 0 /\ Out("Init", InitArgs, St0, St0)
 Step(a, args, post) == st' = post /\ Out(a, args, st, post)
-A(u, app, id, amt) == [u |-> u, app |-> app, id |-> id, amt |-> amt]
+A(u, app, id, amt) == [u |-> u, app |-> app, asset |-> ST, id |-> id, amt |-> amt]
+Ax(u, app, asset, id, amt) == [u |-> u, app |-> app, asset |-> asset, id |-> id, amt |-> amt]
 
 DoCreate == st.nl < MaxLockers /\ \E u \in Users2, app \in AppsOn, amt \in Amts :
-              Step("CreateLocker", A(u, app, 0, amt), CreateLocker(st, u, app, amt).st) /\ UNCHANGED nops
+              Step("CreateLocker", A(u, app, 0, amt), CreateLocker(st, u, app, ST, amt).st) /\ UNCHANGED nops
 (* deposit / withdraw / close by the owner and by somebody else; withdraw below, at, above the net balance *)
 DoLockerOp == \E i \in 1..Len(st.lockers), u \in Users2 :
    LET l == st.lockers[i] IN
    /\ nops < 3 /\ nops' = nops + 1
-   /\ \/ \E amt \in Amts : Step("DepositLocker", A(u, l.app, l.id, amt), DepositLocker(st, u, l.app, l.id, amt, 0).st)
+   /\ \/ \E amt \in Amts : Step("DepositLocker", A(u, l.app, l.id, amt), DepositLocker(st, u, l.app, ST, l.id, amt, 0).st)
       \/ \E amt \in {x \in {l.net - 3, l.net, l.net + 1} : x > 0} :
-            Step("WithdrawLocker", A(u, l.app, l.id, amt), WithdrawLocker(st, u, l.app, l.id, amt, 0).st)
-      \/ Step("CloseLocker", A(u, l.app, l.id, 0), CloseLocker(st, u, l.app, l.id, 0).st)
+            Step("WithdrawLocker", A(u, l.app, l.id, amt), WithdrawLocker(st, u, l.app, ST, l.id, amt, 0).st)
+      \/ Step("CloseLocker", A(u, l.app, l.id, 0), CloseLocker(st, u, l.app, ST, l.id, 0).st)
       \/ (u = l.owner /\ Step("RewardCalc", A(u, l.app, l.id, 0), RewardCalc(st, l.app, l.id, 0).st))
-      \/ (u = l.owner /\ \E app2 \in AppsOn \ {l.app} : Step("WithdrawLocker", A(u, app2, l.id, 1), WithdrawLocker(st, u, app2, l.id, 1, 0).st))
+      \* arguments that do not belong together: the locker id under another app, another asset id
+      \/ (u = l.owner /\ \E app2 \in AppsOn \ {l.app} :
+             \/ Step("WithdrawLocker", A(u, app2, l.id, 1), WithdrawLocker(st, u, app2, ST, l.id, 1, 0).st)
+             \/ Step("CloseLocker", A(u, app2, l.id, 0), CloseLocker(st, u, app2, ST, l.id, 0).st)
+             \/ Step("RewardCalc", A(u, app2, l.id, 0), RewardCalc(st, app2, l.id, 0).st))
+      \/ (u = l.owner /\ \E as \in {CO, "uharbor"} :
+             \/ Step("WithdrawLocker", Ax(u, l.app, as, l.id, 1), WithdrawLocker(st, u, l.app, as, l.id, 1, 0).st)
+             \/ Step("CloseLocker", Ax(u, l.app, as, l.id, 0), CloseLocker(st, u, l.app, as, l.id, 0).st))
 DoVaultCreate == st.nv < MaxVaults /\ \E u \in Users2, app \in AppsOn, out \in {25, 40, 41} :
-                   Step("VaultCreate", [u |-> u, app |-> app, id |-> 0, amt |-> 0, in |-> 30, out |-> out], VaultCreate(st, C, u, app, 30, out).st) /\ UNCHANGED nops
+                   Step("VaultCreate", [u |-> u, app |-> app, asset |-> ST, id |-> 0, amt |-> 0, in |-> 30, out |-> out], VaultCreate(st, C, u, app, 30, out).st) /\ UNCHANGED nops
 DoVaultOp == \E i \in 1..Len(st.vaults), u \in Users2 :
    LET v == st.vaults[i] IN
    /\ UNCHANGED nops
